@@ -4,7 +4,7 @@ from ..common import MachineryError
 
 MANIFEST = {
     "engine": "S5-Fem",
-    "technique": "TLA+ reference semantics (exact rational FEM oracle, Fem.tla) evaluated by TLC on a TLC-enumerated case space (FormSpace.tla); real JIT-compiled kernels run on the same integer data and compared entry-wise within a rounding bound emitted by the spec",
+    "technique": "TLA+ reference semantics (exact rational FEM oracle, Fem.tla) evaluated by TLC on a TLC-enumerated case space (FormSpace.tla); real JIT-compiled kernels run on the same integer data and compared entry-wise within a rounding bound emitted by the spec; plus S7: TLA+ model of the element-table pipeline (TableOpt.tla, exhaustively checked) bound to the real pipeline by injected tables (cell scope), records judged by TLC",
     "text": "FormSpace.tla enumerates abstract cases (cell x element kind x integrand shape x rule x geometry kind x coordinate degree, "
             "~3200 valid combinations); each sampled case is realised as real UFL objects and compiled by ffcx.codegeneration.jit; the "
             "generated cell kernel is called on integer geometry (random orientation, non-affine P2/Q1 cells, manifolds), integer coefficient "
